@@ -145,6 +145,48 @@ pub fn deep_messages(seed: u64) -> Vec<AMsg> {
         let attrs: Vec<(String, AV)> = (0..600).map(|i| (format!("attr-{}", i), if i % 2 == 0 { AV::Int(i) } else { AV::Str("Keyword", format!("v{}", i)) })).collect();
         out.push(AMsg { ver: 0x0101, code: 0, id: 600, groups: vec![AGroup { tag: 1, attrs: vec![("attributes-charset".into(), AV::Str("Charset", "utf-8".into()))] }, AGroup { tag: 5, attrs }] });
     }
+    // real-world vocabulary: every registered attribute name with a value of every syntax (alone, as a set of two
+    // and as a member of a collection), in groups of rotating kinds; and every realistic text in every string syntax
+    {
+        use crate::vocab::{real_text, ATTR_NAMES, REAL_TEXTS};
+        let kinds: [&str; 22] = [
+            "Integer", "Enum", "Boolean", "RangeOfInteger", "DateTime", "Resolution", "NoValue", "Other", "TextWithLanguage", "NameWithLanguage",
+            "OctetString", "TextWithoutLanguage", "NameWithoutLanguage", "Charset", "NaturalLanguage", "Uri", "UriScheme", "Keyword", "MimeMediaType",
+            "Integer", "Keyword", "Enum",
+        ];
+        let val = |kind: &str, i: usize, r: &mut Rng| -> AV {
+            match kind {
+                "TextWithLanguage" | "NameWithLanguage" => AV::Lang(if kind == "TextWithLanguage" { "TextWithLanguage" } else { "NameWithLanguage" }, real_text("NaturalLanguage", i).to_string(), real_text("Text", i).to_string()),
+                k if STR_KINDS.contains(&k) => AV::Str(STR_KINDS.iter().find(|x| **x == k).unwrap(), real_text(k, i).to_string()),
+                "Integer" if i % 3 == 0 => AV::Int([3, 4, 5, 6, 7, 8, 9, 0, 1, -1][i % 10]),
+                "Enum" if i % 3 == 0 => AV::Enum([3, 4, 5, 6, 7, 8, 9, 0, 1, -1][i % 10]),
+                k => gen_av(k, r),
+            }
+        };
+        for (ni, name) in ATTR_NAMES.iter().enumerate() {
+            let mut groups = vec![AGroup { tag: 1, attrs: vec![("attributes-charset".into(), AV::Str("Charset", "utf-8".into()))] }];
+            for (ki, kind) in kinds.iter().enumerate() {
+                let tag = [1u8, 2, 4, 5][(ni + ki) % 4];
+                let v = val(kind, ni + ki, &mut r);
+                let v = match ki % 3 {
+                    0 => v,
+                    1 => AV::Set(vec![v, val(kind, ni + ki + 1, &mut r)]),
+                    _ => AV::Coll(vec![(name.to_string(), v), (if *name == "media-size" { "media-type" } else { "media-size" }.to_string(), AV::Coll(vec![("x-dimension".into(), AV::Int(21000))]))]),
+                };
+                groups.push(AGroup { tag, attrs: vec![(name.to_string(), v)] });
+            }
+            // the same name with the natural single value in the group it usually lives in, next to a neighbour
+            groups.push(AGroup { tag: 2, attrs: vec![(name.to_string(), val(kinds[ni % 19], ni, &mut r)), (if *name == "job-id" { "job-uri" } else { "job-id" }.to_string(), AV::Int(ni as i32))] });
+            out.push(AMsg { ver: 0x0200, code: [0u16, 2, 0x000b, 0x4002][ni % 4], id: 1000 + ni as u32, groups });
+        }
+        for (ti, t) in REAL_TEXTS.iter().enumerate() {
+            let mut attrs: Vec<(String, AV)> = STR_KINDS.iter().filter(|k| **k != "MemberAttrName").map(|k| (format!("as-{}", k.to_lowercase()), AV::Str(k, t.to_string()))).collect();
+            attrs.push(("as-text-lang".into(), AV::Lang("TextWithLanguage", "en".into(), t.to_string())));
+            attrs.push(("as-name-lang".into(), AV::Lang("NameWithLanguage", t.to_string(), "x".into())));
+            attrs.push(("as-set".into(), AV::Set(vec![AV::Str("Uri", t.to_string()), AV::Str("Keyword", t.to_string()), AV::Str("NameWithoutLanguage", t.to_string())])));
+            out.push(AMsg { ver: 0x0101, code: 0, id: 5000 + ti as u32, groups: vec![AGroup { tag: 1, attrs: vec![] }, AGroup { tag: 4, attrs }] });
+        }
+    }
     for total in [65535usize, 65534, 300] {
         // with-language values whose outer length hits the limit: language + text + 4 = total
         for ll in [0usize, 2, 255, 256] {
